@@ -121,6 +121,8 @@ int *arrNew(int n, int *len);
 int *arrLib(int *len);
 double *arrNewAlloc(int n, int *len);
 int *arrNewPat(int n, int *len);
+void arrFillPtr(int **out, int n);
+void arrGrabRef(int *&out, int n);
 int arrSum(const int *arr, int n);
 int arrSumD(const double *arr, int n);
 void arrFillOut(int n, double *out);
